@@ -33,6 +33,7 @@ for p in $V/selftest/mutants/*.patch; do
 done
 for d in $V/seeded/*/; do
   n=$(basename $d)
+  [ -f $d/patch.diff ] || continue      # seeded/_historic: changes that apply to an earlier /repo only
   case $n in
     preserving-*) prop=$(echo $n | cut -d- -f2); run $d/patch.diff $prop 0 "seeded/$n" ;;
     *) prop=$(echo $n | cut -d- -f1); run $d/patch.diff $prop 1 "seeded/$n" ;;
